@@ -832,6 +832,10 @@ fn arb_value_text() -> impl Strategy<Value = String> {
     ]
 }
 
+pub fn arb_tree_case() -> impl Strategy<Value = TreeCase> {
+    (arb_expr(6), arb_env(), any::<u32>()).prop_map(|(expr, env, blanks)| TreeCase { expr, env, blanks })
+}
+
 pub fn arb_env_pub() -> impl Strategy<Value = BTreeMap<String, String>> {
     arb_env()
 }
@@ -893,9 +897,7 @@ pub fn run(ctx: &Ctx, st: &mut Stats) {
 
     // random deeper trees
     let n = ctx.tier.pick(200_000, 6_000_000);
-    TREE.run_random(ctx, st, n, || {
-        (arb_expr(6), arb_env(), any::<u32>()).prop_map(|(expr, env, blanks)| TreeCase { expr, env, blanks })
-    });
+    TREE.run_random(ctx, st, n, arb_tree_case);
 
     // token soup and arbitrary text
     let n = ctx.tier.pick(150_000, 4_000_000);
